@@ -439,6 +439,13 @@ def run(ctx):
              'join the reconnection task', floor=4)
     for fam in SA:
         r6_shutdown(ctx, fam)
+    ctx.rule('C08.R3', 'a transport loss during an attempt empties the '
+             'accepted-namespace table on every path, which is what makes '
+             'the waiting connect() fail and the effort continue (shared '
+             'rule)', floor=10)
+    from .c08 import r3_reset
+    for fam in SA:
+        r3_reset(ctx, fam)
     ctx.assume('engine.io clears eio.state before notifying an intentional '
                'close (trusted): will_reconnect is then false')
     ctx.assume('the numeric back-off law and jitter bounds are NOT decided; '
